@@ -4,6 +4,7 @@ From VF Require Import Async.Collector Async.CollectorProofs.
 From VF Require Import Async.StreamTypes Generated.RetryTable Async.Stream Async.StreamProofs Async.StreamProvenanceProofs
   Async.StreamCancelProofs Async.StreamStateReplyProofs Async.StreamFatalProofs.
 From VF Require Import Async.Limiter Async.LimiterProofs.
+From VF Require Import Async.PauliWork Async.PauliWorkProofs.
 Import ListNotations.
 
 (* ---- Collector.collect_async: for every concurrency, budget, next_job oracle and completion schedule ---- *)
@@ -491,3 +492,32 @@ Example C20_limiter_example :
   (exists s, lrun 2 (tr ++ [LFinish 0 false; LFinish 2 true; LReturn 0 0 false; LReturn 2 2 true]) = Some s /\
              l_entering s = None /\ l_holding s = [] /\ l_woken s = [] /\ l_calls s = 3).
 Proof. vm_compute. repeat split; eexists; repeat split; reflexivity. Qed.
+
+(* ---- PauliSumCollector as the source of work: next_job reads nothing but its own count of samples handed out ---- *)
+
+(* every term of the observable is handed out exactly samples_per_term samples - a unit of work is spent when it is handed
+   out, not when its result arrives, so nothing is handed out twice however many jobs are in flight *)
+Theorem C20_pauli_work_exact : forall n spt mj t, (0 < spt)%Z -> (0 < mj)%Z -> (0 <= t < n)%Z ->
+  requested t (pjobs n spt mj) = spt.
+Proof. exact pauli_work_exact. Qed.
+Print Assumptions C20_pauli_work_exact.
+
+(* every job measures a term of the observable and asks for 1..max_samples_per_job samples *)
+Theorem C20_pauli_work_chunks : forall n spt mj, (0 < spt)%Z -> (0 < mj)%Z ->
+  Forall (fun x => (0 <= fst x < n)%Z /\ (0 < snd x <= mj)%Z) (pjobs n spt mj).
+Proof. exact pauli_work_chunks. Qed.
+Print Assumptions C20_pauli_work_chunks.
+
+(* the list ends because all the work (n * samples_per_term samples) was handed out, and next_job then answers None *)
+Theorem C20_pauli_work_total : forall n spt mj, (0 < spt)%Z -> (0 < mj)%Z -> (0 <= n)%Z ->
+  fold_right (fun x s => (snd x + s)%Z) 0%Z (pjobs n spt mj) = (n * spt)%Z /\ pnext n spt mj (n * spt) = None.
+Proof. exact pauli_work_total. Qed.
+Print Assumptions C20_pauli_work_total.
+
+(* non-vacuity, and the work list under the collector loop: 3 terms x 5 samples in jobs of 2, three jobs in flight completing
+   youngest first - the loop starts the seven jobs of the list, each once *)
+Example C20_pauli_work_example :
+  pjobs 3 5 2 = [(0, 2); (0, 2); (0, 1); (1, 2); (1, 2); (1, 1); (2, 2); (2, 2); (2, 1)]%Z
+  /\ let c := run 3 None (panswers 3 5 2) (repeat [(2, Ok 1%Z)] 6 ++ [[(2, Ok 1%Z); (1, Ok 1%Z); (0, Ok 1%Z)]]) in
+     st c = Halted /\ map snd (takes (trace c)) = [0; 0; 0; 1; 1; 1; 2; 2; 2] /\ charged (trace c) = 15%Z.
+Proof. vm_compute. repeat split; reflexivity. Qed.
